@@ -26,6 +26,14 @@ PY = '/venv/bin/python'
 OUT_BASE = os.environ.get('VERIF_OUT') or common.VERIF
 
 
+def safe(text):
+    """Printable ASCII only (details quote hostile inputs)."""
+    return ''.join(c if 32 <= ord(c) < 127 else
+                   c.encode('unicode_escape').decode('ascii')
+                   if ord(c) < 0xd800 or ord(c) > 0xdfff
+                   else '\\u%04x' % ord(c) for c in text)
+
+
 def parse_args(argv):
     ap = argparse.ArgumentParser()
     ap.add_argument('prop')
@@ -259,12 +267,14 @@ def main(argv=None):
         for v, path in replay_paths:
             print('VIOLATION property=%s replay=%s' % (prop, path))
             print('  kind=%s detail=%s' % (v['kind'],
-                                          common.clip(v['detail'], 400)))
+                                          safe(common.clip(v['detail'],
+                                                           400))))
         print('  (%d violating cases in total)' % agg['violation_total'])
         return 1
     if inconclusive:
         for x in inconclusive:
-            print('INCONCLUSIVE property=%s %s' % (prop, common.clip(x, 600)))
+            print('INCONCLUSIVE property=%s %s' % (prop,
+                                                   safe(common.clip(x, 600))))
         return 3
     print('HELD property=%s on everything observed' % prop)
     return 0
@@ -286,7 +296,7 @@ def do_replay(mod, prop, path):
     if rec.violations:
         for x in rec.violations:
             print('VIOLATION property=%s replay=%s' % (prop, path))
-            print('  kind=%s detail=%s' % (x['kind'], x['detail']))
+            print('  kind=%s detail=%s' % (x['kind'], safe(x['detail'])))
         return 1
     print('replay: no violation reproduced (known hits: %s)' % rec.known_hits)
     return 0
